@@ -18,8 +18,12 @@ use ::whirlpool::manager::whirlpool_manager::{next_whirlpool_liquidity, next_whi
 use ::whirlpool::pinocchio::ported::manager_liquidity_manager::*;
 use ::whirlpool::pinocchio::state::whirlpool::tick_array::TickUpdate as PTickUpdate;
 use ::whirlpool::pinocchio::state::whirlpool::{
-    MemoryMappedPosition, MemoryMappedTick, MemoryMappedWhirlpool,
+    MemoryMappedPosition, MemoryMappedTick, MemoryMappedWhirlpool, MemoryMappedWhirlpoolRewardInfo,
 };
+use ::whirlpool::pinocchio::state::whirlpool::tick_array::dynamic_tick_array::MemoryMappedDynamicTickArray;
+use ::whirlpool::pinocchio::state::whirlpool::tick_array::fixed_tick_array::MemoryMappedFixedTickArray;
+use ::whirlpool::pinocchio::state::whirlpool::tick_array::TickArray as PTickArray;
+use ::whirlpool::pinocchio::state::token::MemoryMappedTokenAccount;
 use ::whirlpool::pinocchio::state::WhirlpoolProgramAccount;
 use ::whirlpool::state::*;
 
@@ -95,52 +99,42 @@ fn any_position_update() -> PositionUpdate {
     u
 }
 
-/// 32-byte equality without a loop (keeps the unwinding bound independent of key compares in the harness)
+/// 32-byte equality (plain loop; harnesses using it unwind >= 33)
 fn eq32(a: &[u8; 32], b: &[u8; 32]) -> bool {
-    let a0 = u128::from_le_bytes(*arrayref(a, 0));
-    let a1 = u128::from_le_bytes(*arrayref(a, 16));
-    let b0 = u128::from_le_bytes(*arrayref(b, 0));
-    let b1 = u128::from_le_bytes(*arrayref(b, 16));
-    a0 == b0 && a1 == b1
-}
-fn arrayref(a: &[u8; 32], off: usize) -> &[u8; 16] {
-    unsafe { &*(a.as_ptr().add(off) as *const [u8; 16]) }
+    let mut ok = true;
+    let mut i = 0;
+    while i < 32 {
+        ok &= a[i] == b[i];
+        i += 1;
+    }
+    ok
 }
 
 pub const WP_LEN: usize = 653;
 pub const POS_LEN: usize = 216;
 
 /// 653 symbolic bytes carrying the Anchor `Whirlpool` discriminator
+/// (assumed, not written: every write to a large array is replayed in each of CBMC's JSON traces — measured 3.6 GB)
 pub fn any_wp_bytes() -> [u8; WP_LEN] {
-    let mut b: [u8; WP_LEN] = kani::any();
+    let b: [u8; WP_LEN] = kani::any();
     let d = Whirlpool::DISCRIMINATOR;
-    let mut i = 0;
-    while i < 8 {
-        b[i] = d[i];
-        i += 1;
-    }
+    kani::assume(b[0] == d[0] && b[1] == d[1] && b[2] == d[2] && b[3] == d[3] && b[4] == d[4] && b[5] == d[5] && b[6] == d[6] && b[7] == d[7]);
     b
 }
 /// 216 symbolic bytes carrying the Anchor `Position` discriminator
 pub fn any_pos_bytes() -> [u8; POS_LEN] {
-    let mut b: [u8; POS_LEN] = kani::any();
+    let b: [u8; POS_LEN] = kani::any();
     let d = Position::DISCRIMINATOR;
-    let mut i = 0;
-    while i < 8 {
-        b[i] = d[i];
-        i += 1;
-    }
+    kani::assume(b[0] == d[0] && b[1] == d[1] && b[2] == d[2] && b[3] == d[3] && b[4] == d[4] && b[5] == d[5] && b[6] == d[6] && b[7] == d[7]);
     b
 }
 pub fn wp_view(b: &[u8; WP_LEN]) -> &MemoryMappedWhirlpool {
-    assert!(core::mem::size_of::<MemoryMappedWhirlpool>() == WP_LEN);
     unsafe { &*(b.as_ptr() as *const MemoryMappedWhirlpool) }
 }
 pub fn wp_view_mut(b: &mut [u8; WP_LEN]) -> &mut MemoryMappedWhirlpool {
     unsafe { &mut *(b.as_mut_ptr() as *mut MemoryMappedWhirlpool) }
 }
 pub fn pos_view(b: &[u8; POS_LEN]) -> &MemoryMappedPosition {
-    assert!(core::mem::size_of::<MemoryMappedPosition>() == POS_LEN);
     unsafe { &*(b.as_ptr() as *const MemoryMappedPosition) }
 }
 pub fn pos_view_mut(b: &mut [u8; POS_LEN]) -> &mut MemoryMappedPosition {
@@ -189,23 +183,631 @@ pub fn pos_encode(p: &Position) -> [u8; POS_LEN] {
     out
 }
 
-/// exact-at-zero wrapper around the uninterpreted `checked_mul_div` (n0*n1/d with a zero factor is 0):
-/// the Pinocchio port skips the call when emissions are 0, the Anchor code performs it.
-fn stub_mul_div_z(n0: u128, n1: u128, d: u128) -> Result<u128, ErrorCode> {
-    if d == 0 {
-        return Err(ErrorCode::DivideByZero);
+// Hand-written field decoders at the documented Borsh offsets. The function-level harnesses (§2) build the Anchor
+// structs with these instead of running `try_deserialize` (which drags the whole Anchor error machinery into every
+// harness: measured 3-5x); c12_decode_whirlpool_manual / c12_decode_position_manual decide, for all bytes, that they
+// produce exactly what `Whirlpool::try_deserialize` / `Position::try_deserialize` produce.
+fn rd16(b: &[u8], o: usize) -> u16 {
+    u16::from_le_bytes([b[o], b[o + 1]])
+}
+fn rd32(b: &[u8], o: usize) -> i32 {
+    i32::from_le_bytes([b[o], b[o + 1], b[o + 2], b[o + 3]])
+}
+fn rd64(b: &[u8], o: usize) -> u64 {
+    u64::from_le_bytes([b[o], b[o + 1], b[o + 2], b[o + 3], b[o + 4], b[o + 5], b[o + 6], b[o + 7]])
+}
+fn rd128(b: &[u8], o: usize) -> u128 {
+    (rd64(b, o) as u128) | ((rd64(b, o + 8) as u128) << 64)
+}
+fn rdkey(b: &[u8], o: usize) -> [u8; 32] {
+    let mut k = [0u8; 32];
+    k.copy_from_slice(&b[o..o + 32]);
+    k
+}
+fn rdreward(b: &[u8], o: usize) -> WhirlpoolRewardInfo {
+    WhirlpoolRewardInfo {
+        mint: anchor_lang::prelude::Pubkey::new_from_array(rdkey(b, o)),
+        vault: anchor_lang::prelude::Pubkey::new_from_array(rdkey(b, o + 32)),
+        extension: rdkey(b, o + 64),
+        emissions_per_second_x64: rd128(b, o + 96),
+        growth_global_x64: rd128(b, o + 112),
     }
-    if n0 == 0 || n1 == 0 {
-        return Ok(0);
+}
+pub fn wp_from_bytes(b: &[u8; WP_LEN]) -> Whirlpool {
+    use anchor_lang::prelude::Pubkey;
+    Whirlpool {
+        whirlpools_config: Pubkey::new_from_array(rdkey(b, 8)),
+        whirlpool_bump: [b[40]],
+        tick_spacing: rd16(b, 41),
+        fee_tier_index_seed: [b[43], b[44]],
+        fee_rate: rd16(b, 45),
+        protocol_fee_rate: rd16(b, 47),
+        liquidity: rd128(b, 49),
+        sqrt_price: rd128(b, 65),
+        tick_current_index: rd32(b, 81),
+        protocol_fee_owed_a: rd64(b, 85),
+        protocol_fee_owed_b: rd64(b, 93),
+        token_mint_a: Pubkey::new_from_array(rdkey(b, 101)),
+        token_vault_a: Pubkey::new_from_array(rdkey(b, 133)),
+        fee_growth_global_a: rd128(b, 165),
+        token_mint_b: Pubkey::new_from_array(rdkey(b, 181)),
+        token_vault_b: Pubkey::new_from_array(rdkey(b, 213)),
+        fee_growth_global_b: rd128(b, 245),
+        reward_last_updated_timestamp: rd64(b, 261),
+        reward_infos: [rdreward(b, 269), rdreward(b, 397), rdreward(b, 525)],
     }
-    memo::stub_checked_mul_div(n0, n1, d)
+}
+pub fn pos_from_bytes(b: &[u8; POS_LEN]) -> Position {
+    use anchor_lang::prelude::Pubkey;
+    Position {
+        whirlpool: Pubkey::new_from_array(rdkey(b, 8)),
+        position_mint: Pubkey::new_from_array(rdkey(b, 40)),
+        liquidity: rd128(b, 72),
+        tick_lower_index: rd32(b, 88),
+        tick_upper_index: rd32(b, 92),
+        fee_growth_checkpoint_a: rd128(b, 96),
+        fee_owed_a: rd64(b, 112),
+        fee_growth_checkpoint_b: rd128(b, 120),
+        fee_owed_b: rd64(b, 136),
+        reward_infos: [
+            PositionRewardInfo { growth_inside_checkpoint: rd128(b, 144), amount_owed: rd64(b, 160) },
+            PositionRewardInfo { growth_inside_checkpoint: rd128(b, 168), amount_owed: rd64(b, 184) },
+            PositionRewardInfo { growth_inside_checkpoint: rd128(b, 192), amount_owed: rd64(b, 208) },
+        ],
+    }
+}
+fn same_wp_core(a: &Whirlpool, b: &Whirlpool, j: usize) -> bool {
+    a.whirlpools_config == b.whirlpools_config
+        && a.whirlpool_bump == b.whirlpool_bump
+        && a.tick_spacing == b.tick_spacing
+        && a.fee_tier_index_seed == b.fee_tier_index_seed
+        && a.fee_rate == b.fee_rate
+        && a.protocol_fee_rate == b.protocol_fee_rate
+        && a.liquidity == b.liquidity
+        && a.sqrt_price == b.sqrt_price
+        && a.tick_current_index == b.tick_current_index
+        && a.protocol_fee_owed_a == b.protocol_fee_owed_a
+        && a.protocol_fee_owed_b == b.protocol_fee_owed_b
+        && a.token_mint_a == b.token_mint_a
+        && a.token_vault_a == b.token_vault_a
+        && a.fee_growth_global_a == b.fee_growth_global_a
+        && a.token_mint_b == b.token_mint_b
+        && a.token_vault_b == b.token_vault_b
+        && a.fee_growth_global_b == b.fee_growth_global_b
+        && a.reward_last_updated_timestamp == b.reward_last_updated_timestamp
+}
+fn same_wp_reward(a: &WhirlpoolRewardInfo, b: &WhirlpoolRewardInfo, j: usize) -> bool {
+    a.mint == b.mint
+        && a.vault == b.vault
+        && a.extension == b.extension
+        && a.emissions_per_second_x64 == b.emissions_per_second_x64
+        && a.growth_global_x64 == b.growth_global_x64
+}
+fn same_pos(a: &Position, b: &Position, j: usize) -> bool {
+    a.whirlpool == b.whirlpool
+        && a.position_mint == b.position_mint
+        && a.liquidity == b.liquidity
+        && a.tick_lower_index == b.tick_lower_index
+        && a.tick_upper_index == b.tick_upper_index
+        && a.fee_growth_checkpoint_a == b.fee_growth_checkpoint_a
+        && a.fee_owed_a == b.fee_owed_a
+        && a.fee_growth_checkpoint_b == b.fee_growth_checkpoint_b
+        && a.fee_owed_b == b.fee_owed_b
+        && a.reward_infos[0] == b.reward_infos[0]
+        && a.reward_infos[1] == b.reward_infos[1]
+        && a.reward_infos[2] == b.reward_infos[2]
+}
+
+pub const FTA_LEN: usize = 9988; // 8 + 4 + 88 * 113 + 32
+pub const DTA_LEN: usize = 10004; // 8 + 4 + 32 + 16 + 88 * 113
+
+/// Anchor's view of a fixed tick array account image, exactly as `load_tick_array` maps it
+pub fn fta_anchor(b: &[u8; FTA_LEN]) -> &FixedTickArray {
+    bytemuck::from_bytes(&b[8..])
+}
+pub fn fta_anchor_mut(b: &mut [u8; FTA_LEN]) -> &mut FixedTickArray {
+    bytemuck::from_bytes_mut(&mut b[8..])
+}
+/// Pinocchio's view of the same image, exactly as `load_account_unchecked` maps it
+pub fn fta_pino(b: &[u8; FTA_LEN]) -> &MemoryMappedFixedTickArray {
+    assert!(core::mem::size_of::<MemoryMappedFixedTickArray>() == FTA_LEN);
+    unsafe { &*(b.as_ptr() as *const MemoryMappedFixedTickArray) }
+}
+pub fn fta_pino_mut(b: &mut [u8; FTA_LEN]) -> &mut MemoryMappedFixedTickArray {
+    unsafe { &mut *(b.as_mut_ptr() as *mut MemoryMappedFixedTickArray) }
+}
+/// The fixed-array DATA-path harness uses concrete addressing (slot addressing for symbolic tick/start is decided
+/// by the c12_tick_offset_* harnesses; a symbolic index into the 9988-byte image makes CBMC run out of memory:
+/// measured 4 M variables / 90 M clauses): tick spacing 96, start index -3*88*96, slot 87.
+pub const TS_D: u16 = 96;
+pub const START_D: i32 = -3 * 88 * 96;
+/// account image of a fixed tick array = 8-byte discriminator + Anchor's zero-copy struct (packed, 9980 bytes)
+#[repr(C, packed)]
+pub struct FtaImage {
+    pub disc: [u8; 8],
+    pub arr: FixedTickArray,
+}
+pub fn any_tick() -> Tick {
+    Tick {
+        initialized: kani::any(),
+        liquidity_net: kani::any(),
+        liquidity_gross: kani::any(),
+        fee_growth_outside_a: kani::any(),
+        fee_growth_outside_b: kani::any(),
+        reward_growths_outside: [kani::any(), kani::any(), kani::any()],
+    }
+}
+/// image with concrete start index, symbolic whirlpool key, symbolic ticks at slots 86 and 87, zero elsewhere
+pub fn fta_image(start: i32) -> Box<FtaImage> {
+    assert!(core::mem::size_of::<FtaImage>() == FTA_LEN);
+    let mut b: Box<FtaImage> = unsafe { Box::new(core::mem::zeroed()) };
+    b.arr.start_tick_index = start;
+    b.arr.ticks[86] = any_tick();
+    b.arr.ticks[87] = any_tick();
+    let key: [u8; 32] = kani::any();
+    b.arr.whirlpool = anchor_lang::prelude::Pubkey::new_from_array(key);
+    b
+}
+pub fn img_pino(b: &FtaImage) -> &MemoryMappedFixedTickArray {
+    unsafe { &*(b as *const FtaImage as *const MemoryMappedFixedTickArray) }
+}
+pub fn img_pino_mut(b: &mut FtaImage) -> &mut MemoryMappedFixedTickArray {
+    unsafe { &mut *(b as *mut FtaImage as *mut MemoryMappedFixedTickArray) }
+}
+pub fn img_bytes(b: &FtaImage) -> &[u8; FTA_LEN] {
+    unsafe { &*(b as *const FtaImage as *const [u8; FTA_LEN]) }
+}
+
+/// Tick-array stand-ins for the COMPOSED differentials (`calculate_modify_liquidity`, `sync_modify_liquidity_values`
+/// take `&dyn TickArray(Type)`): one 113-byte tick, a symbolic "found" flag and variable-size flag; `update_tick`
+/// records its arguments. Both traits are served from the same bytes, so the composed harnesses decide "same array
+/// answers ⇒ same results / same array requests"; the real fixed-array views are compared in c12_tick_offset_* and
+/// c12_view_fixed_array_*.
+pub struct MockArr {
+    pub tick: [u8; 113],
+    pub found: bool,
+    pub variable: bool,
+    pub upd_ok: [bool; 2],
+    pub n: usize,
+    pub log_idx: [i32; 2],
+    pub log_ts: [u16; 2],
+    pub log_a: [Option<TickUpdate>; 2],
+}
+impl MockArr {
+    pub fn any() -> (MockArr, MockArr) {
+        let tick = any_tick_bytes();
+        let found: bool = kani::any();
+        let variable: bool = kani::any();
+        let upd_ok: [bool; 2] = [kani::any(), kani::any()];
+        let mk = || MockArr { tick, found, variable, upd_ok, n: 0, log_idx: [0; 2], log_ts: [0; 2], log_a: [None, None] };
+        (mk(), mk())
+    }
+    fn record(&mut self, tick_index: i32, tick_spacing: u16, u: TickUpdate) -> bool {
+        assert!(self.n < 2, "at most two updates per array");
+        self.log_idx[self.n] = tick_index;
+        self.log_ts[self.n] = tick_spacing;
+        self.log_a[self.n] = Some(u);
+        let ok = self.upd_ok[self.n];
+        self.n += 1;
+        ok
+    }
+    pub fn same_log(&self, o: &MockArr) -> bool {
+        let mut ok = self.n == o.n;
+        let mut i = 0;
+        while i < 2 {
+            if i < self.n && i < o.n {
+                ok &= self.log_idx[i] == o.log_idx[i] && self.log_ts[i] == o.log_ts[i];
+                ok &= match (&self.log_a[i], &o.log_a[i]) {
+                    (Some(x), Some(y)) => {
+                        x.initialized == y.initialized
+                            && x.liquidity_net == y.liquidity_net
+                            && x.liquidity_gross == y.liquidity_gross
+                            && x.fee_growth_outside_a == y.fee_growth_outside_a
+                            && x.fee_growth_outside_b == y.fee_growth_outside_b
+                            && x.reward_growths_outside[0] == y.reward_growths_outside[0]
+                            && x.reward_growths_outside[1] == y.reward_growths_outside[1]
+                            && x.reward_growths_outside[2] == y.reward_growths_outside[2]
+                    }
+                    _ => false,
+                };
+            }
+            i += 1;
+        }
+        ok
+    }
+}
+impl TickArrayType for MockArr {
+    fn is_variable_size(&self) -> bool {
+        self.variable
+    }
+    fn start_tick_index(&self) -> i32 {
+        0
+    }
+    fn whirlpool(&self) -> anchor_lang::prelude::Pubkey {
+        anchor_lang::prelude::Pubkey::default()
+    }
+    fn get_next_init_tick_index(&self, _t: i32, _s: u16, _a: bool) -> anchor_lang::Result<Option<i32>> {
+        unreachable!()
+    }
+    fn get_tick(&self, _tick_index: i32, _tick_spacing: u16) -> anchor_lang::Result<Tick> {
+        if self.found {
+            Ok(tick_from_bytes(&self.tick))
+        } else {
+            Err(ErrorCode::TickNotFound.into())
+        }
+    }
+    fn update_tick(&mut self, tick_index: i32, tick_spacing: u16, update: &TickUpdate) -> anchor_lang::Result<()> {
+        if self.record(tick_index, tick_spacing, update.clone()) {
+            Ok(())
+        } else {
+            Err(ErrorCode::TickNotFound.into())
+        }
+    }
+}
+static ZERO_KEY: [u8; 32] = [0u8; 32];
+impl PTickArray for MockArr {
+    fn is_variable_size(&self) -> bool {
+        self.variable
+    }
+    fn whirlpool(&self) -> &pinocchio::pubkey::Pubkey {
+        &ZERO_KEY
+    }
+    fn start_tick_index(&self) -> i32 {
+        0
+    }
+    fn get_tick(&self, _tick_index: i32, _tick_spacing: u16) -> ::whirlpool::pinocchio::Result<&MemoryMappedTick> {
+        if self.found {
+            Ok(mtick(&self.tick))
+        } else {
+            Err(ErrorCode::TickNotFound.into())
+        }
+    }
+    fn update_tick(&mut self, tick_index: i32, tick_spacing: u16, u: &PTickUpdate) -> ::whirlpool::pinocchio::Result<()> {
+        let a = TickUpdate {
+            initialized: u.initialized,
+            liquidity_net: u.liquidity_net,
+            liquidity_gross: u.liquidity_gross,
+            fee_growth_outside_a: u.fee_growth_outside_a,
+            fee_growth_outside_b: u.fee_growth_outside_b,
+            reward_growths_outside: u.reward_growths_outside,
+        };
+        if self.record(tick_index, tick_spacing, a) {
+            Ok(())
+        } else {
+            Err(ErrorCode::TickNotFound.into())
+        }
+    }
+}
+/// zero-filled fixed array image with a given start index (for header-only questions)
+pub fn fta_with_start(start: i32) -> Box<[u8; FTA_LEN]> {
+    let mut b: Box<[u8; FTA_LEN]> = Box::new([0u8; FTA_LEN]);
+    let s = start.to_le_bytes();
+    b[8] = s[0];
+    b[9] = s[1];
+    b[10] = s[2];
+    b[11] = s[3];
+    b
+}
+fn same_tick(a: &Tick, p: &MemoryMappedTick) -> bool {
+    let r = p.reward_growths_outside();
+    let ar = { a.reward_growths_outside };
+    a.initialized == p.initialized()
+        && { a.liquidity_net } == p.liquidity_net()
+        && { a.liquidity_gross } == p.liquidity_gross()
+        && { a.fee_growth_outside_a } == p.fee_growth_outside_a()
+        && { a.fee_growth_outside_b } == p.fee_growth_outside_b()
+        && ar[0] == r[0]
+        && ar[1] == r[1]
+        && ar[2] == r[2]
+}
+
+/// raw account memory in the layout `pinocchio::account_info::AccountInfo` points at
+#[repr(C)]
+pub struct RawAcc<const N: usize> {
+    pub borrow_state: u8,
+    pub is_signer: u8,
+    pub is_writable: u8,
+    pub executable: u8,
+    pub resize_delta: i32,
+    pub key: [u8; 32],
+    pub owner: [u8; 32],
+    pub lamports: u64,
+    pub data_len: u64,
+    pub data: [u8; N],
+}
+pub unsafe fn pino_ai<const N: usize>(r: *mut RawAcc<N>) -> pinocchio::account_info::AccountInfo {
+    let mut slot = core::mem::MaybeUninit::<pinocchio::account_info::AccountInfo>::uninit();
+    (slot.as_mut_ptr() as *mut *mut RawAcc<N>).write(r);
+    slot.assume_init()
+}
+
+/// Local uninterpreted functions (same arguments -> same arbitrary result on both sides), written WITHOUT loops so
+/// that the harness unwinding bound (33 for the 32-byte key compares in the code under test) does not multiply the
+/// table scans (measured: 401 s -> see report). Table bounds are asserted. Same contracts as `common::memo`.
+mod uf {
+    use ::whirlpool::errors::ErrorCode;
+    const N: usize = 6;
+    macro_rules! find {
+        ($n:expr, $k:expr, $v:expr, $key:expr) => {{
+            if 0 < $n && $k[0] == $key {
+                Some($v[0])
+            } else if 1 < $n && $k[1] == $key {
+                Some($v[1])
+            } else if 2 < $n && $k[2] == $key {
+                Some($v[2])
+            } else if 3 < $n && $k[3] == $key {
+                Some($v[3])
+            } else if 4 < $n && $k[4] == $key {
+                Some($v[4])
+            } else if 5 < $n && $k[5] == $key {
+                Some($v[5])
+            } else {
+                None
+            }
+        }};
+    }
+    // get_amount_delta_a / _b
+    static mut DK: [(u8, u128, u128, u128, bool); N] = [(0, 0, 0, 0, false); N];
+    static mut DV: [(u8, u64); N] = [(0, 0); N];
+    static mut DN: usize = 0;
+    fn delta(which: u8, p0: u128, p1: u128, l: u128, r: bool) -> Result<u64, ErrorCode> {
+        unsafe {
+            let key = (which, p0, p1, l, r);
+            if let Some(v) = find!(DN, DK, DV, key) {
+                return out(v.0, v.1);
+            }
+            assert!(DN < N, "memo table bound (get_amount_delta)");
+            let kind: u8 = kani::any();
+            kani::assume(kind <= 3);
+            let v: u64 = kani::any();
+            DK[DN] = key;
+            DV[DN] = (kind, v);
+            DN += 1;
+            out(kind, v)
+        }
+    }
+    fn out(kind: u8, v: u64) -> Result<u64, ErrorCode> {
+        match kind {
+            0 => Ok(v),
+            1 => Err(ErrorCode::TokenMaxExceeded),
+            2 => Err(ErrorCode::MultiplicationOverflow),
+            _ => Err(ErrorCode::NumberDownCastError),
+        }
+    }
+    pub fn stub_get_amount_delta_a(p0: u128, p1: u128, l: u128, r: bool) -> Result<u64, ErrorCode> {
+        delta(0, p0, p1, l, r)
+    }
+    pub fn stub_get_amount_delta_b(p0: u128, p1: u128, l: u128, r: bool) -> Result<u64, ErrorCode> {
+        delta(1, p0, p1, l, r)
+    }
+    // sqrt_price_from_tick_index: uninterpreted (no monotonicity assumed: not needed for a differential)
+    static mut PK: [i32; N] = [0; N];
+    static mut PV: [u128; N] = [0; N];
+    static mut PN: usize = 0;
+    pub fn stub_sqrt_price_from_tick_index(t: i32) -> u128 {
+        unsafe {
+            if let Some(v) = find!(PN, PK, PV, t) {
+                return v;
+            }
+            assert!(PN < N, "memo table bound (sqrt_price_from_tick_index)");
+            let v: u128 = kani::any();
+            PK[PN] = t;
+            PV[PN] = v;
+            PN += 1;
+            v
+        }
+    }
+    // checked_mul_shift_right: exact for a zero factor (0), otherwise arbitrary Ok / overflow per argument pair
+    static mut SK: [(u128, u128); N] = [(0, 0); N];
+    static mut SV: [(bool, u64); N] = [(false, 0); N];
+    static mut SN: usize = 0;
+    pub fn stub_checked_mul_shift_right(n0: u128, n1: u128) -> Result<u64, ErrorCode> {
+        if n0 == 0 || n1 == 0 {
+            return Ok(0);
+        }
+        unsafe {
+            let key = (n0, n1);
+            let (ok, v) = match find!(SN, SK, SV, key) {
+                Some(x) => x,
+                None => {
+                    assert!(SN < N, "memo table bound (checked_mul_shift_right)");
+                    let x: (bool, u64) = (kani::any(), kani::any());
+                    SK[SN] = key;
+                    SV[SN] = x;
+                    SN += 1;
+                    x
+                }
+            };
+            if ok { Ok(v) } else { Err(ErrorCode::MultiplicationShiftRightOverflow) }
+        }
+    }
+    // ---- call-sequence oracles for the COMPOSED harnesses (record while the Anchor implementation runs, replay while
+    // the Pinocchio port runs): the i-th call with non-zero factors must carry the i-th recorded arguments and gets the
+    // i-th recorded (arbitrary) result; any other call sets DIVERGED (asserted false by the harness) and returns a fresh
+    // value. Recording gives repeated arguments independent results: a superset of the behaviours of a function, hence
+    // sound for proving equality; it avoids the pairwise key comparisons of the memo tables (composition: > 1500 s).
+    pub static mut PHASE: u8 = 0;
+    pub static mut DIVERGED: bool = false;
+    static mut QS_K: [(u128, u128); N] = [(0, 0); N];
+    static mut QS_V: [(bool, u64); N] = [(false, 0); N];
+    static mut QS_N: usize = 0;
+    static mut QS_I: usize = 0;
+    pub fn seq_checked_mul_shift_right(n0: u128, n1: u128) -> Result<u64, ErrorCode> {
+        if n0 == 0 || n1 == 0 {
+            return Ok(0);
+        }
+        unsafe {
+            let (ok, v): (bool, u64) = if PHASE == 0 {
+                assert!(QS_N < N, "oracle bound (checked_mul_shift_right)");
+                let x: (bool, u64) = (kani::any(), kani::any());
+                QS_K[QS_N] = (n0, n1);
+                QS_V[QS_N] = x;
+                QS_N += 1;
+                x
+            } else if QS_I < QS_N && QS_K[QS_I] == (n0, n1) {
+                let x = QS_V[QS_I];
+                QS_I += 1;
+                x
+            } else {
+                DIVERGED = true;
+                (kani::any(), kani::any())
+            };
+            if ok { Ok(v) } else { Err(ErrorCode::MultiplicationShiftRightOverflow) }
+        }
+    }
+    static mut QM_K: [(u128, u128, u128); N] = [(0, 0, 0); N];
+    static mut QM_V: [(bool, u128); N] = [(false, 0); N];
+    static mut QM_N: usize = 0;
+    static mut QM_I: usize = 0;
+    pub fn seq_checked_mul_div(n0: u128, n1: u128, d: u128) -> Result<u128, ErrorCode> {
+        if d == 0 {
+            return Err(ErrorCode::DivideByZero);
+        }
+        if n0 == 0 || n1 == 0 {
+            return Ok(0);
+        }
+        unsafe {
+            let (ok, v): (bool, u128) = if PHASE == 0 {
+                assert!(QM_N < N, "oracle bound (checked_mul_div)");
+                let x: (bool, u128) = (kani::any(), kani::any());
+                QM_K[QM_N] = (n0, n1, d);
+                QM_V[QM_N] = x;
+                QM_N += 1;
+                x
+            } else if QM_I < QM_N && QM_K[QM_I] == (n0, n1, d) {
+                let x = QM_V[QM_I];
+                QM_I += 1;
+                x
+            } else {
+                DIVERGED = true;
+                (kani::any(), kani::any())
+            };
+            if ok { Ok(v) } else { Err(ErrorCode::MulDivOverflow) }
+        }
+    }
+    // checked_mul_div: Err(DivideByZero) iff d == 0, exact for a zero factor (0), otherwise arbitrary Ok / overflow
+    static mut MK: [(u128, u128, u128); N] = [(0, 0, 0); N];
+    static mut MV: [(bool, u128); N] = [(false, 0); N];
+    static mut MN: usize = 0;
+    pub fn stub_checked_mul_div(n0: u128, n1: u128, d: u128) -> Result<u128, ErrorCode> {
+        if d == 0 {
+            return Err(ErrorCode::DivideByZero);
+        }
+        if n0 == 0 || n1 == 0 {
+            return Ok(0);
+        }
+        unsafe {
+            let key = (n0, n1, d);
+            let (ok, v) = match find!(MN, MK, MV, key) {
+                Some(x) => x,
+                None => {
+                    assert!(MN < N, "memo table bound (checked_mul_div)");
+                    let x: (bool, u128) = (kani::any(), kani::any());
+                    MK[MN] = key;
+                    MV[MN] = x;
+                    MN += 1;
+                    x
+                }
+            };
+            if ok { Ok(v) } else { Err(ErrorCode::MulDivOverflow) }
+        }
+    }
+}
+
+/// Record/replay summaries of two leaf pairs for the COMPOSED harness (assume-guarantee: the pairs themselves are
+/// decided equivalent by c12_reward_growth_global_equiv and c12_position_modify_equiv). While the Anchor
+/// implementation runs the summary returns an ARBITRARY outcome and records arguments and outcome; while the Pinocchio
+/// port runs, its counterpart must be called with the same logical arguments (else DIVERGED, asserted false) and gets
+/// the recorded outcome. The objects passed by reference are identified by address (one pool / position per side).
+mod leaf {
+    use super::*;
+    pub static mut DIVERGED: bool = false;
+    pub static mut A_WP: usize = 0;
+    pub static mut P_WP: usize = 0;
+    pub static mut A_POS: usize = 0;
+    pub static mut P_POS: usize = 0;
+    // reward growth global
+    static mut RG_SET: bool = false;
+    static mut RG_TS: u64 = 0;
+    static mut RG_OK: bool = false;
+    static mut RG_V: [u128; 3] = [0; 3];
+    pub fn a_next_whirlpool_reward_infos(w: &Whirlpool, ts: u64) -> Result<[WhirlpoolRewardInfo; 3], ErrorCode> {
+        unsafe {
+            assert!(!RG_SET && w as *const Whirlpool as usize == A_WP);
+            RG_SET = true;
+            RG_TS = ts;
+            RG_OK = kani::any();
+            RG_V = [kani::any(), kani::any(), kani::any()];
+            if RG_OK {
+                let mut r = w.reward_infos;
+                r[0].growth_global_x64 = RG_V[0];
+                r[1].growth_global_x64 = RG_V[1];
+                r[2].growth_global_x64 = RG_V[2];
+                Ok(r)
+            } else {
+                Err(ErrorCode::InvalidTimestamp)
+            }
+        }
+    }
+    pub fn p_next_whirlpool_reward_growth_global(w: &MemoryMappedWhirlpool, ts: u64) -> ::whirlpool::pinocchio::Result<[u128; 3]> {
+        unsafe {
+            if !(RG_SET && ts == RG_TS && w as *const MemoryMappedWhirlpool as usize == P_WP) {
+                DIVERGED = true;
+                return Ok([kani::any(), kani::any(), kani::any()]);
+            }
+            if RG_OK { Ok(RG_V) } else { Err(ErrorCode::InvalidTimestamp.into()) }
+        }
+    }
+    // position update
+    static mut PM_SET: bool = false;
+    static mut PM_ARGS: (i128, u128, u128, [u128; 3]) = (0, 0, 0, [0; 3]);
+    static mut PM_KIND: u8 = 0;
+    static mut PM_V: Option<PositionUpdate> = None;
+    fn clone_pu(u: &PositionUpdate) -> PositionUpdate {
+        PositionUpdate { liquidity: u.liquidity, fee_growth_checkpoint_a: u.fee_growth_checkpoint_a, fee_owed_a: u.fee_owed_a,
+            fee_growth_checkpoint_b: u.fee_growth_checkpoint_b, fee_owed_b: u.fee_owed_b, reward_infos: u.reward_infos }
+    }
+    fn pm_err() -> ErrorCode {
+        unsafe { if PM_KIND == 1 { ErrorCode::LiquidityOverflow } else { ErrorCode::LiquidityUnderflow } }
+    }
+    pub fn a_next_position_modify_liquidity_update(p: &Position, delta: i128, fa: u128, fb: u128, rg: &[u128; 3]) -> Result<PositionUpdate, ErrorCode> {
+        unsafe {
+            assert!(!PM_SET && p as *const Position as usize == A_POS);
+            PM_SET = true;
+            PM_ARGS = (delta, fa, fb, *rg);
+            PM_KIND = kani::any();
+            kani::assume(PM_KIND <= 2);
+            let u = any_position_update();
+            PM_V = Some(clone_pu(&u));
+            if PM_KIND == 0 { Ok(u) } else { Err(pm_err()) }
+        }
+    }
+    pub fn p_next_position_modify_liquidity_update(p: &MemoryMappedPosition, delta: i128, fa: u128, fb: u128, rg: &[u128; 3]) -> ::whirlpool::pinocchio::Result<PositionUpdate> {
+        unsafe {
+            let same = PM_SET && p as *const MemoryMappedPosition as usize == P_POS && PM_ARGS.0 == delta && PM_ARGS.1 == fa && PM_ARGS.2 == fb
+                && PM_ARGS.3[0] == rg[0] && PM_ARGS.3[1] == rg[1] && PM_ARGS.3[2] == rg[2];
+            if !same {
+                DIVERGED = true;
+                return Ok(any_position_update());
+            }
+            if PM_KIND == 0 {
+                match &PM_V {
+                    Some(u) => Ok(clone_pu(u)),
+                    None => unreachable!(),
+                }
+            } else {
+                Err(pm_err().into())
+            }
+        }
+    }
 }
 
 // ---------------------------------------------------------------------------------------------
 // §1 memory-mapped views vs Anchor account types
 
-/// MemoryMappedWhirlpool: every getter (and `seeds`, reward-info getters, `initialized`) returns what
-/// `Whirlpool::try_deserialize` decodes from the same 653 bytes; discriminator constants agree
+/// MemoryMappedWhirlpool: every scalar/key getter returns what `Whirlpool::try_deserialize` decodes from the
+/// same 653 bytes; discriminator constants agree; the hand-written `wp_from_bytes` (used by §2) equals the Anchor
+/// decode on every non-reward field
 // @verif prop=C12 tier=quick timeout=300
 #[kani::proof]
 #[kani::unwind(34)]
@@ -214,8 +816,11 @@ fn stub_mul_div_z(n0: u128, n1: u128, d: u128) -> Result<u128, ErrorCode> {
 #[kani::stub(<anchor_lang::error::Error as core::convert::From<::whirlpool::errors::ErrorCode>>::from, stub_err_from_code)]
 fn c12_view_whirlpool_read() {
     let bytes = any_wp_bytes();
+    let j: usize = kani::any();
+    kani::assume(j < 32);
     let w = wp_decode(&bytes);
     let v = wp_view(&bytes);
+    assert!(core::mem::size_of::<MemoryMappedWhirlpool>() == WP_LEN);
     assert!(<MemoryMappedWhirlpool as WhirlpoolProgramAccount>::DISCRIMINATOR[..] == *Whirlpool::DISCRIMINATOR);
     assert!(v.tick_spacing() == w.tick_spacing);
     assert!(v.liquidity() == w.liquidity);
@@ -228,27 +833,64 @@ fn c12_view_whirlpool_read() {
     assert!(v.fee_growth_global_a() == w.fee_growth_global_a);
     assert!(v.fee_growth_global_b() == w.fee_growth_global_b);
     assert!(v.reward_last_updated_timestamp() == w.reward_last_updated_timestamp);
+    // the hand-written decoder used by the §2 harnesses agrees with Anchor's on every non-reward field
+    // (incl. the fields without a Pinocchio getter; key-like fields: byte j for every j)
+    let m = wp_from_bytes(&bytes);
+    assert!(same_wp_core(&w, &m, j));
+    kani::cover!(v.liquidity() != 0 && v.tick_spacing() == 64, "plausible pool");
+}
+
+/// MemoryMappedWhirlpoolRewardInfo (inside the 653-byte view): mint, vault, extension, emissions, growth and
+/// `initialized()` agree with the decoded `Whirlpool.reward_infos[i]` for every reward index i
+// @verif prop=C12 tier=quick timeout=300
+#[kani::proof]
+#[kani::unwind(34)]
+#[kani::stub(alloc::fmt::format, stub_format)]
+#[kani::stub(<anchor_lang::error::Error as core::convert::From<anchor_lang::error::ErrorCode>>::from, stub_err_from_anchor_code)]
+#[kani::stub(<anchor_lang::error::Error as core::convert::From<::whirlpool::errors::ErrorCode>>::from, stub_err_from_code)]
+fn c12_view_whirlpool_read_rewards() {
+    let bytes = any_wp_bytes();
+    let j: usize = kani::any();
+    kani::assume(j < 32);
+    let w = wp_decode(&bytes);
+    let v = wp_view(&bytes);
     let ri = v.reward_infos();
     let mut i = 0;
     while i < 3 {
-        assert!(eq32(ri[i].mint(), &w.reward_infos[i].mint.to_bytes()));
-        assert!(eq32(ri[i].vault(), &w.reward_infos[i].vault.to_bytes()));
-        assert!(eq32(ri[i].extension(), &w.reward_infos[i].extension));
+        // key-like fields: byte j for every j
+        assert!(ri[i].mint()[j] == w.reward_infos[i].mint.as_ref()[j]);
+        assert!(ri[i].vault()[j] == w.reward_infos[i].vault.as_ref()[j]);
+        assert!(ri[i].extension()[j] == w.reward_infos[i].extension[j]);
         assert!(ri[i].emissions_per_second_x64() == w.reward_infos[i].emissions_per_second_x64);
         assert!(ri[i].growth_global_x64() == w.reward_infos[i].growth_global_x64);
         assert!(ri[i].initialized() == w.reward_infos[i].initialized());
         i += 1;
     }
-    // PDA signer seeds: same six byte strings
-    let ps = v.seeds();
-    let as_ = w.seeds();
+    kani::cover!(ri[2].initialized() && !ri[1].initialized(), "reward 2 initialised, reward 1 not");
+}
+
+/// MemoryMappedWhirlpool::seeds (PDA signer seeds for the vault CPIs) yields the same six byte strings as
+/// `Whirlpool::seeds` on the decoded account
+// @verif prop=C12 tier=quick timeout=300
+#[kani::proof]
+#[kani::unwind(34)]
+#[kani::stub(alloc::fmt::format, stub_format)]
+#[kani::stub(<anchor_lang::error::Error as core::convert::From<anchor_lang::error::ErrorCode>>::from, stub_err_from_anchor_code)]
+#[kani::stub(<anchor_lang::error::Error as core::convert::From<::whirlpool::errors::ErrorCode>>::from, stub_err_from_code)]
+fn c12_view_whirlpool_seeds() {
+    let bytes = any_wp_bytes();
     let k: usize = kani::any();
     kani::assume(k < 6);
-    assert!(ps[k].len() == as_[k].len());
     let j: usize = kani::any();
+    let w = wp_decode(&bytes);
+    let v = wp_view(&bytes);
+    let ps = v.seeds();
+    let as_ = w.seeds();
+    assert!(ps[k].len() == as_[k].len());
     kani::assume(j < as_[k].len());
     assert!(ps[k][j] == as_[k][j]);
-    kani::cover!(ri[1].initialized() && !ri[2].initialized(), "mixed reward initialisation");
+    kani::cover!(k == 5 && j == 0, "bump seed");
+    kani::cover!(k == 2 && j == 31, "mint seed");
 }
 
 /// MemoryMappedWhirlpool::update_liquidity_and_reward_growth_global writes exactly the bytes that
@@ -278,12 +920,7 @@ fn c12_view_whirlpool_write() {
     w.update_rewards_and_liquidity(infos, liq, ts);
     let ab = wp_encode(&w);
     assert!(pb[k] == ab[k]);
-    // and read back across: Anchor decodes what Pinocchio wrote
-    let w2 = wp_decode(&pb);
-    assert!(w2.liquidity == liq && w2.reward_last_updated_timestamp == ts);
-    assert!(w2.reward_infos[0].growth_global_x64 == g[0]);
-    assert!(w2.reward_infos[1].growth_global_x64 == g[1]);
-    assert!(w2.reward_infos[2].growth_global_x64 == g[2]);
+    // (Anchor decoding what Pinocchio wrote follows from byte equality + c12_view_whirlpool_read*)
     // Pinocchio reads what Anchor wrote
     let v2 = wp_view(&ab);
     assert!(v2.liquidity() == liq && v2.reward_last_updated_timestamp() == ts);
@@ -302,6 +939,7 @@ fn c12_view_position_read() {
     let bytes = any_pos_bytes();
     let p = pos_decode(&bytes);
     let v = pos_view(&bytes);
+    assert!(core::mem::size_of::<MemoryMappedPosition>() == POS_LEN);
     assert!(<MemoryMappedPosition as WhirlpoolProgramAccount>::DISCRIMINATOR[..] == *Position::DISCRIMINATOR);
     assert!(eq32(v.whirlpool(), &p.whirlpool.to_bytes()));
     assert!(eq32(v.position_mint(), &p.position_mint.to_bytes()));
@@ -340,12 +978,8 @@ fn c12_view_position_update() {
     p.update(&u);
     let ab = pos_encode(&p);
     assert!(pb[k] == ab[k]);
-    // read back across
-    let p2 = pos_decode(&pb);
-    assert!(p2.liquidity == u.liquidity && p2.fee_owed_a == u.fee_owed_a && p2.fee_owed_b == u.fee_owed_b);
-    assert!(p2.reward_infos[0] == u.reward_infos[0]);
-    assert!(p2.reward_infos[1] == u.reward_infos[1]);
-    assert!(p2.reward_infos[2] == u.reward_infos[2]);
+    // (Anchor decoding what Pinocchio wrote follows from byte equality + c12_view_position_read)
+    // Pinocchio reads what Anchor wrote
     let v2 = pos_view(&ab);
     assert!(v2.liquidity() == u.liquidity);
     assert!(v2.fee_growth_checkpoint_a() == u.fee_growth_checkpoint_a);
@@ -353,6 +987,43 @@ fn c12_view_position_update() {
     assert!(v2.reward_infos()[2].amount_owed() == u.reward_infos[2].amount_owed);
     assert!(v2.reward_infos()[1].growth_inside_checkpoint() == u.reward_infos[1].growth_inside_checkpoint);
     kani::cover!(pb[k] != bytes[k], "a byte changed");
+}
+
+/// the hand-written `wp_from_bytes` (used by the §2 harnesses instead of the Anchor decode) equals
+/// `Whirlpool::try_deserialize` on all five fields of all three reward infos, for all 653-byte images
+/// (non-reward fields: c12_view_whirlpool_read)
+// @verif prop=C12 tier=quick timeout=300
+#[kani::proof]
+#[kani::unwind(34)]
+#[kani::stub(alloc::fmt::format, stub_format)]
+#[kani::stub(<anchor_lang::error::Error as core::convert::From<anchor_lang::error::ErrorCode>>::from, stub_err_from_anchor_code)]
+#[kani::stub(<anchor_lang::error::Error as core::convert::From<::whirlpool::errors::ErrorCode>>::from, stub_err_from_code)]
+fn c12_decode_whirlpool_manual_rewards() {
+    let bytes = any_wp_bytes();
+    let w = wp_decode(&bytes);
+    let m = wp_from_bytes(&bytes);
+    assert!(same_wp_reward(&w.reward_infos[0], &m.reward_infos[0], 0)
+        && same_wp_reward(&w.reward_infos[1], &m.reward_infos[1], 0)
+        && same_wp_reward(&w.reward_infos[2], &m.reward_infos[2], 0));
+    kani::cover!(w.reward_infos[2].emissions_per_second_x64 != 0, "reward 2 emitting");
+}
+
+/// the hand-written `pos_from_bytes` used by the §2 harnesses equals `Position::try_deserialize` field by field on
+/// all 216-byte images
+// @verif prop=C12 tier=quick timeout=300
+#[kani::proof]
+#[kani::unwind(34)]
+#[kani::stub(alloc::fmt::format, stub_format)]
+#[kani::stub(<anchor_lang::error::Error as core::convert::From<anchor_lang::error::ErrorCode>>::from, stub_err_from_anchor_code)]
+#[kani::stub(<anchor_lang::error::Error as core::convert::From<::whirlpool::errors::ErrorCode>>::from, stub_err_from_code)]
+fn c12_decode_position_manual() {
+    let bytes = any_pos_bytes();
+    let j: usize = kani::any();
+    kani::assume(j < 32);
+    let p = pos_decode(&bytes);
+    let m = pos_from_bytes(&bytes);
+    assert!(same_pos(&p, &m, j));
+    kani::cover!(p.liquidity != 0 && p.reward_infos[2].amount_owed != 0, "plausible position");
 }
 
 /// MemoryMappedTick getters ≡ zero-copy `Tick` fields on the same 113 bytes; MemoryMappedTick::update writes
@@ -385,6 +1056,320 @@ fn c12_view_tick_read_write() {
     let ab: [u8; 113] = unsafe { core::mem::transmute(t2) };
     assert!(pb[k] == ab[k]);
     kani::cover!(pb[k] != bytes[k], "a byte changed");
+}
+
+/// The hand-written division-free `check_is_usable_tick_and_get_offset` meets its multiplication spec for EVERY
+/// tick_spacing >= 1, every start index in the range valid arrays can have and every tick index:
+/// `Some(off)` ⇔ in array bounds ∧ MIN_TICK <= t <= MAX_TICK ∧ t − start = off·tick_spacing, and then off < 88.
+/// (Anchor computes the same thing with `%` and `/`; for symbolic spacing the link is Euclid's division lemma,
+/// which bit-blasting does not close — see c12_tick_offset_equiv for the differential on concrete spacings.)
+// @verif prop=C12 tier=quick timeout=300
+#[kani::proof]
+#[kani::unwind(9)]
+#[kani::stub(alloc::fmt::format, stub_format)]
+#[kani::stub(<anchor_lang::error::Error as core::convert::From<anchor_lang::error::ErrorCode>>::from, stub_err_from_anchor_code)]
+#[kani::stub(<anchor_lang::error::Error as core::convert::From<::whirlpool::errors::ErrorCode>>::from, stub_err_from_code)]
+#[kani::stub(<::whirlpool::pinocchio::errors::UnifiedError as core::convert::From<::whirlpool::errors::ErrorCode>>::from, stub_unified_from_code)]
+#[kani::stub(<::whirlpool::pinocchio::errors::UnifiedError as core::convert::From<anchor_lang::error::ErrorCode>>::from, stub_unified_from_anchor_code)]
+fn c12_tick_offset_pino_spec() {
+    let ts: u16 = kani::any();
+    kani::assume(ts >= 1);
+    let start: i32 = kani::any();
+    // every valid start index lies in [MIN_TICK - 88*65535, MAX_TICK]
+    kani::assume(start >= MIN_TICK_INDEX - 88 * 65535 && start <= MAX_TICK_INDEX);
+    let t: i32 = kani::any();
+    let q: u8 = kani::any();
+    kani::assume(q < 88);
+    let fb = fta_with_start(start);
+    let p = fta_pino(&fb);
+    let po = PTickArray::check_is_usable_tick_and_get_offset(p, t, ts);
+    let inb = PTickArray::check_in_array_bounds(p, t, ts) && t >= MIN_TICK_INDEX && t <= MAX_TICK_INDEX;
+    match po {
+        Some(off) => {
+            assert!(inb && off < 88);
+            assert!((t - start) as i64 == (off as i64) * (ts as i64));
+        }
+        None => {
+            // for every q < 88: t - start != q * ts
+            if inb {
+                assert!((t - start) as i64 != (q as i64) * (ts as i64));
+            }
+        }
+    }
+    kani::cover!(po == Some(87) && ts == 32896, "last slot, widest spacing");
+    kani::cover!(po.is_none() && inb, "in bounds, not on the grid");
+    // the same provided method instantiated for the dynamic view (start index at 8..12 as well) agrees
+    let mut db: Box<[u8; DTA_LEN]> = Box::new([0u8; DTA_LEN]);
+    let sb = start.to_le_bytes();
+    db[8] = sb[0];
+    db[9] = sb[1];
+    db[10] = sb[2];
+    db[11] = sb[3];
+    let dp: &MemoryMappedDynamicTickArray = unsafe { &*(db.as_ptr() as *const MemoryMappedDynamicTickArray) };
+    assert!(PTickArray::check_is_usable_tick_and_get_offset(dp, t, ts) == po);
+}
+
+fn offset_case(ts: u16, fb: &mut Box<[u8; FTA_LEN]>) {
+    let start: i32 = kani::any();
+    kani::assume(Tick::check_is_valid_start_tick(start, ts));
+    let t: i32 = kani::any();
+    let shifted: bool = kani::any();
+    let sb = start.to_le_bytes();
+    fb[8] = sb[0];
+    fb[9] = sb[1];
+    fb[10] = sb[2];
+    fb[11] = sb[3];
+    let a = fta_anchor(fb);
+    let p = fta_pino(fb);
+    assert!(TickArrayType::start_tick_index(a) == start && PTickArray::start_tick_index(p) == start);
+    // Anchor decision
+    let usable = TickArrayType::check_in_array_bounds(a, t, ts) && Tick::check_is_usable_tick(t, ts);
+    let po = PTickArray::check_is_usable_tick_and_get_offset(p, t, ts);
+    match po {
+        Some(off) => {
+            assert!(usable);
+            let ao = TickArrayType::tick_offset(a, t, ts);
+            match &ao {
+                Ok(x) => assert!(*x >= 0 && *x as usize == off && off < 88),
+                Err(_) => assert!(false, "anchor offset fails"),
+            }
+            core::mem::forget(ao);
+            // slot addressing: the tick Pinocchio hands out is the tick Anchor indexes, 12 + 113*off into the image
+            let pr = PTickArray::get_tick(p, t, ts);
+            match &pr {
+                Ok(y) => {
+                    let pa = *y as *const MemoryMappedTick as usize;
+                    let aa = &a.ticks[off] as *const Tick as usize;
+                    assert!(pa == aa && pa == fb.as_ptr() as usize + 12 + 113 * off);
+                }
+                Err(_) => assert!(false, "pinocchio get_tick fails on a usable tick"),
+            }
+            core::mem::forget(pr);
+        }
+        None => assert!(!usable),
+    }
+    kani::cover!(po == Some(87), "last slot");
+    kani::cover!(po.is_some() && start < MIN_TICK_INDEX, "leftmost array");
+    kani::cover!(po.is_none() && TickArrayType::check_in_array_bounds(a, t, ts), "in bounds but not usable");
+    // the helper predicates both traits duplicate
+    assert!(TickArrayType::in_search_range(a, t, ts, shifted) == PTickArray::in_search_range(p, t, ts, shifted));
+    assert!(TickArrayType::is_min_tick_array(a) == PTickArray::is_min_tick_array(p));
+    assert!(TickArrayType::is_max_tick_array(a, ts) == PTickArray::is_max_tick_array(p, ts));
+    if TickArrayType::in_search_range(a, t, ts, shifted) {
+        let ao = TickArrayType::tick_offset(a, t, ts);
+        let pof = PTickArray::tick_offset(p, t, ts);
+        match (&ao, &pof) {
+            (Ok(x), Ok(y)) => assert!(x == y),
+            _ => assert!(false, "tick_offset fails for ts >= 1"),
+        }
+        core::mem::forget(ao);
+        core::mem::forget(pof);
+    }
+}
+fn offset_cases(list: &[u16]) {
+    let mut fb: Box<[u8; FTA_LEN]> = Box::new([0u8; FTA_LEN]);
+    let mut i = 0;
+    while i < list.len() {
+        offset_case(list[i], &mut fb);
+        i += 1;
+    }
+}
+
+/// Pinocchio `check_is_usable_tick_and_get_offset` / `get_tick` slot addressing ≡ Anchor
+/// `check_in_array_bounds && Tick::check_is_usable_tick` + `tick_offset` + `&ticks[offset]`, plus `tick_offset`,
+/// `in_search_range`, `is_min/max_tick_array`, for every tick index and every VALID start index
+/// (`Tick::check_is_valid_start_tick`, enforced at array creation; without it the shift-subtract offset legitimately
+/// differs — unreachable state). Tick spacing: each of 1, 2, 4, 8, 16, 32, 64, 128 (concrete: a symbolic divisor
+/// against the shift-subtract loop does not terminate in CBMC; c12_tick_offset_pino_spec covers all spacings)
+// @verif prop=C12 tier=quick timeout=300
+#[kani::proof]
+#[kani::unwind(9)]
+#[kani::stub(alloc::fmt::format, stub_format)]
+#[kani::stub(<anchor_lang::error::Error as core::convert::From<anchor_lang::error::ErrorCode>>::from, stub_err_from_anchor_code)]
+#[kani::stub(<anchor_lang::error::Error as core::convert::From<::whirlpool::errors::ErrorCode>>::from, stub_err_from_code)]
+#[kani::stub(<::whirlpool::pinocchio::errors::UnifiedError as core::convert::From<::whirlpool::errors::ErrorCode>>::from, stub_unified_from_code)]
+#[kani::stub(<::whirlpool::pinocchio::errors::UnifiedError as core::convert::From<anchor_lang::error::ErrorCode>>::from, stub_unified_from_anchor_code)]
+fn c12_tick_offset_equiv_pow2_small() {
+    offset_cases(&[1, 2, 4, 8, 16, 32, 64, 128]);
+}
+
+/// same as c12_tick_offset_equiv_pow2_small for tick spacings 256, 512, 1024, 2048, 4096, 8192, 16384, 32768
+// @verif prop=C12 tier=quick timeout=300
+#[kani::proof]
+#[kani::unwind(9)]
+#[kani::stub(alloc::fmt::format, stub_format)]
+#[kani::stub(<anchor_lang::error::Error as core::convert::From<anchor_lang::error::ErrorCode>>::from, stub_err_from_anchor_code)]
+#[kani::stub(<anchor_lang::error::Error as core::convert::From<::whirlpool::errors::ErrorCode>>::from, stub_err_from_code)]
+#[kani::stub(<::whirlpool::pinocchio::errors::UnifiedError as core::convert::From<::whirlpool::errors::ErrorCode>>::from, stub_unified_from_code)]
+#[kani::stub(<::whirlpool::pinocchio::errors::UnifiedError as core::convert::From<anchor_lang::error::ErrorCode>>::from, stub_unified_from_anchor_code)]
+fn c12_tick_offset_equiv_pow2_large() {
+    offset_cases(&[256, 512, 1024, 2048, 4096, 8192, 16384, 32768]);
+}
+
+/// same as c12_tick_offset_equiv_pow2_small for the non-power-of-two spacings 3, 7, 96, 100, 32896 (full-range-only
+/// pools), 65535
+// @verif prop=C12 tier=quick timeout=300
+#[kani::proof]
+#[kani::unwind(9)]
+#[kani::stub(alloc::fmt::format, stub_format)]
+#[kani::stub(<anchor_lang::error::Error as core::convert::From<anchor_lang::error::ErrorCode>>::from, stub_err_from_anchor_code)]
+#[kani::stub(<anchor_lang::error::Error as core::convert::From<::whirlpool::errors::ErrorCode>>::from, stub_err_from_code)]
+#[kani::stub(<::whirlpool::pinocchio::errors::UnifiedError as core::convert::From<::whirlpool::errors::ErrorCode>>::from, stub_unified_from_code)]
+#[kani::stub(<::whirlpool::pinocchio::errors::UnifiedError as core::convert::From<anchor_lang::error::ErrorCode>>::from, stub_unified_from_anchor_code)]
+fn c12_tick_offset_equiv_other() {
+    offset_cases(&[3, 7, 96, 100, 32896, 65535]);
+}
+
+// NOTE (removed harnesses, none finished on the unchanged tree within 900 s / 40 GB): a DATA-path differential of
+// `get_tick`/`update_tick` over the 9988-byte fixed-array image (even with concrete addressing), and
+// `MemoryMappedPosition::reset_position_range` vs `Position::reset_position_range` over `Account<Whirlpool>` (it did
+// catch the seeded "is_position_empty ignores reward 2" mutation in 175 s, but the passing case does not terminate).
+// The helpers below them (FtaImage, fta_image, ...) are kept for whoever retries with a cheaper formulation.
+
+/// Dynamic tick array header: start index, whirlpool key, bitmap, variable-size flag and the slot -> byte offset map
+/// (113·popcount + rest) read identically by `MemoryMappedDynamicTickArray` and Anchor's `DynamicTickArrayLoader`
+/// from the same 60 header bytes (tick data: see C13)
+// @verif prop=C12 tier=quick timeout=300
+#[kani::proof]
+#[kani::unwind(61)]
+#[kani::stub(alloc::fmt::format, stub_format)]
+#[kani::stub(<anchor_lang::error::Error as core::convert::From<anchor_lang::error::ErrorCode>>::from, stub_err_from_anchor_code)]
+#[kani::stub(<anchor_lang::error::Error as core::convert::From<::whirlpool::errors::ErrorCode>>::from, stub_err_from_code)]
+#[kani::stub(<::whirlpool::pinocchio::errors::UnifiedError as core::convert::From<::whirlpool::errors::ErrorCode>>::from, stub_unified_from_code)]
+#[kani::stub(<::whirlpool::pinocchio::errors::UnifiedError as core::convert::From<anchor_lang::error::ErrorCode>>::from, stub_unified_from_anchor_code)]
+fn c12_view_dynamic_header() {
+    let hdr: [u8; 60] = kani::any();
+    let slot: usize = kani::any();
+    kani::assume(slot < 88);
+    let j: usize = kani::any();
+    kani::assume(j < 32);
+    // Anchor's loader maps `[u8; MAX_LEN]` at data[8..], i.e. it claims 8 bytes beyond a MAX_LEN account: on chain
+    // those are the runtime's 10 KiB realloc padding; model them
+    let mut db: Box<[u8; DTA_LEN + 8]> = Box::new([0u8; DTA_LEN + 8]);
+    let mut i = 0;
+    while i < 60 {
+        db[i] = hdr[i];
+        i += 1;
+    }
+    assert!(core::mem::size_of::<MemoryMappedDynamicTickArray>() == DTA_LEN && DynamicTickArray::MAX_LEN == DTA_LEN);
+    let p: &MemoryMappedDynamicTickArray = unsafe { &*(db.as_ptr() as *const MemoryMappedDynamicTickArray) };
+    let a = DynamicTickArrayLoader::load(&db[8..]);
+    assert!(TickArrayType::start_tick_index(a) == PTickArray::start_tick_index(p));
+    assert!(TickArrayType::whirlpool(a).as_ref()[j] == PTickArray::whirlpool(p)[j]);
+    assert!(TickArrayType::is_variable_size(a) && PTickArray::is_variable_size(p));
+    assert!(a.verif_tick_bitmap() == p.verif_tick_bitmap());
+    let ao = a.verif_byte_offset(slot as isize);
+    let po = p.verif_byte_offset(slot);
+    match (&ao, &po) {
+        (Ok(x), Ok(y)) => assert!(x == y),
+        _ => assert!(false, "byte_offset is infallible for slot >= 0"),
+    }
+    kani::cover!(matches!(&ao, Ok(x) if *x == 87 * 113), "all earlier slots initialised");
+    core::mem::forget(ao);
+    core::mem::forget(po);
+}
+
+/// MemoryMappedTokenAccount getters (mint, owner, amount, delegate, delegated_amount, is_frozen) ≡
+/// `spl_token::state::Account::unpack` on the same 165 bytes, for every image the token program accepts
+/// (unpack succeeds: initialised state, well-formed COption tags)
+// @verif prop=C12 tier=quick timeout=300
+#[kani::proof]
+#[kani::unwind(34)]
+#[kani::stub(alloc::fmt::format, stub_format)]
+#[kani::stub(<anchor_lang::error::Error as core::convert::From<anchor_lang::error::ErrorCode>>::from, stub_err_from_anchor_code)]
+#[kani::stub(<anchor_lang::error::Error as core::convert::From<::whirlpool::errors::ErrorCode>>::from, stub_err_from_code)]
+#[kani::stub(<::whirlpool::pinocchio::errors::UnifiedError as core::convert::From<::whirlpool::errors::ErrorCode>>::from, stub_unified_from_code)]
+#[kani::stub(<::whirlpool::pinocchio::errors::UnifiedError as core::convert::From<anchor_lang::error::ErrorCode>>::from, stub_unified_from_anchor_code)]
+fn c12_view_token_account_read() {
+    use anchor_lang::solana_program::program_pack::Pack;
+    use anchor_spl::token::spl_token::state::{Account as SplAccount, AccountState};
+    let b: [u8; 165] = kani::any();
+    assert!(core::mem::size_of::<MemoryMappedTokenAccount>() == 165);
+    let r = SplAccount::unpack(&b);
+    let acc = match r {
+        Ok(a) => a,
+        Err(e) => {
+            core::mem::forget(e);
+            kani::assume(false);
+            unreachable!()
+        }
+    };
+    let v: &MemoryMappedTokenAccount = unsafe { &*(b.as_ptr() as *const MemoryMappedTokenAccount) };
+    assert!(eq32(v.mint(), &acc.mint.to_bytes()));
+    assert!(eq32(v.owner(), &acc.owner.to_bytes()));
+    assert!(v.amount() == acc.amount);
+    assert!(v.delegated_amount() == acc.delegated_amount);
+    assert!(v.is_frozen() == (acc.state == AccountState::Frozen));
+    assert!(v.is_frozen() == acc.is_frozen());
+    assert!(::whirlpool::pinocchio::ported::util_shared::pino_is_locked_position(v) == acc.is_frozen());
+    match (v.delegate(), Option::<anchor_lang::prelude::Pubkey>::from(acc.delegate)) {
+        (Some(x), Some(y)) => assert!(eq32(x, &y.to_bytes())),
+        (None, None) => {}
+        _ => assert!(false, "delegate presence differs"),
+    }
+    kani::cover!(v.delegate().is_some() && v.is_frozen(), "delegated and frozen");
+    kani::cover!(v.delegate().is_none() && !v.is_frozen(), "plain");
+}
+
+/// pino_verify_position_authority ≡ verify_position_authority on every valid 165-byte position token account and
+/// authority key (authority is a signer: Anchor's `Signer` type; for a non-signer the Pinocchio result equals
+/// Anchor's `validate_owner`)
+// @verif prop=C12 tier=quick timeout=300
+#[kani::proof]
+#[kani::unwind(34)]
+#[kani::stub(alloc::fmt::format, stub_format)]
+#[kani::stub(<anchor_lang::error::Error as core::convert::From<anchor_lang::error::ErrorCode>>::from, stub_err_from_anchor_code)]
+#[kani::stub(<anchor_lang::error::Error as core::convert::From<::whirlpool::errors::ErrorCode>>::from, stub_err_from_code)]
+#[kani::stub(<::whirlpool::pinocchio::errors::UnifiedError as core::convert::From<::whirlpool::errors::ErrorCode>>::from, stub_unified_from_code)]
+#[kani::stub(<::whirlpool::pinocchio::errors::UnifiedError as core::convert::From<anchor_lang::error::ErrorCode>>::from, stub_unified_from_anchor_code)]
+fn c12_verify_position_authority_equiv() {
+    use ::whirlpool::pinocchio::ported::util_shared::pino_verify_position_authority;
+    use ::whirlpool::util::{validate_owner, verify_position_authority};
+    let b: [u8; 165] = kani::any();
+    let auth_key: [u8; 32] = kani::any();
+    let is_signer: bool = kani::any();
+    let tok = match anchor_spl::token::TokenAccount::try_deserialize(&mut &b[..]) {
+        Ok(a) => a,
+        Err(e) => {
+            core::mem::forget(e);
+            kani::assume(false);
+            unreachable!()
+        }
+    };
+    // Anchor authority account
+    let key = anchor_lang::prelude::Pubkey::new_from_array(auth_key);
+    let owner = anchor_lang::solana_program::system_program::ID;
+    let mut lamports = 1u64;
+    let mut nodata: [u8; 0] = [];
+    let ai = anchor_lang::prelude::AccountInfo::new(&key, is_signer, false, &mut lamports, &mut nodata[..], &owner, false, 0);
+    // Pinocchio authority account
+    let mut raw = RawAcc::<0> { borrow_state: 0xff, is_signer: is_signer as u8, is_writable: 0, executable: 0, resize_delta: 0,
+        key: auth_key, owner: [0u8; 32], lamports: 1, data_len: 0, data: [] };
+    let pai = unsafe { pino_ai(&mut raw) };
+    let v: &MemoryMappedTokenAccount = unsafe { &*(b.as_ptr() as *const MemoryMappedTokenAccount) };
+    let pr = pino_verify_position_authority(v, &pai);
+    let ar = if is_signer {
+        let signer = match anchor_lang::prelude::Signer::try_from(&ai) {
+            Ok(s) => s,
+            Err(e) => {
+                core::mem::forget(e);
+                panic!("signer must load")
+            }
+        };
+        verify_position_authority(&tok, &signer)
+    } else {
+        validate_owner(&tok.owner, &ai)
+    };
+    match (&ar, &pr) {
+        (Ok(()), Ok(())) => {}
+        (Err(x), Err(y)) => assert!(acode(x) == ucode(y)),
+        _ => assert!(false, "outcome kind differs"),
+    }
+    kani::cover!(ar.is_ok() && v.delegate().is_some() && auth_key != tok.owner.to_bytes(), "delegate accepted");
+    kani::cover!(ar.is_ok() && auth_key == tok.owner.to_bytes(), "owner accepted");
+    kani::cover!(matches!(&ar, Err(e) if acode(e) == ecode(ErrorCode::InvalidPositionTokenAmount)), "delegate with wrong amount");
+    core::mem::forget(ar);
+    core::mem::forget(pr);
 }
 
 // ---------------------------------------------------------------------------------------------
@@ -446,8 +1431,8 @@ fn c12_fee_growths_inside_equiv() {
     kani::cover!(ub[0] == 1 && cur >= ui, "above range");
 }
 
-/// pino_next_reward_growths_inside ≡ next_reward_growths_inside: reward infos taken from the same 653 whirlpool
-/// bytes (Pinocchio: view + separate next-growth array; Anchor: decoded infos with the growths replaced)
+/// pino_next_reward_growths_inside ≡ next_reward_growths_inside: reward infos are the same 384 bytes
+/// (Pinocchio: memory-mapped infos + separate next-growth array; Anchor: Borsh-decoded infos with the growths replaced)
 // @verif prop=C12 tier=quick timeout=300
 #[kani::proof]
 #[kani::unwind(34)]
@@ -455,20 +1440,28 @@ fn c12_fee_growths_inside_equiv() {
 #[kani::stub(<anchor_lang::error::Error as core::convert::From<anchor_lang::error::ErrorCode>>::from, stub_err_from_anchor_code)]
 #[kani::stub(<anchor_lang::error::Error as core::convert::From<::whirlpool::errors::ErrorCode>>::from, stub_err_from_code)]
 fn c12_reward_growths_inside_equiv() {
-    let wb = any_wp_bytes();
+    let rb: [u8; 384] = kani::any();
     let lb = any_tick_bytes();
     let ub = any_tick_bytes();
     let cur: i32 = kani::any();
     let li: i32 = kani::any();
     let ui: i32 = kani::any();
     let next: [u128; 3] = [kani::any(), kani::any(), kani::any()];
-    let w = wp_decode(&wb);
-    let mut infos = w.reward_infos;
+    assert!(core::mem::size_of::<[MemoryMappedWhirlpoolRewardInfo; 3]>() == 384);
+    let pinfos: &[MemoryMappedWhirlpoolRewardInfo; 3] = unsafe { &*(rb.as_ptr() as *const _) };
+    let dec = <[WhirlpoolRewardInfo; 3] as AnchorDeserialize>::deserialize(&mut &rb[..]);
+    let mut infos = match dec {
+        Ok(x) => x,
+        Err(e) => {
+            core::mem::forget(e);
+            panic!("reward infos must decode")
+        }
+    };
     infos[0].growth_global_x64 = next[0];
     infos[1].growth_global_x64 = next[1];
     infos[2].growth_global_x64 = next[2];
     let a = next_reward_growths_inside(cur, &tick_from_bytes(&lb), li, &tick_from_bytes(&ub), ui, &infos);
-    let p = pino_next_reward_growths_inside(cur, mtick(&lb), li, mtick(&ub), ui, wp_view(&wb).reward_infos(), &next);
+    let p = pino_next_reward_growths_inside(cur, mtick(&lb), li, mtick(&ub), ui, pinfos, &next);
     assert!(a[0] == p[0] && a[1] == p[1] && a[2] == p[2]);
     kani::cover!(a[0] != 0 && a[1] == 0 && a[2] != 0, "initialised / uninitialised rewards mixed");
 }
@@ -482,14 +1475,14 @@ fn c12_reward_growths_inside_equiv() {
 #[kani::stub(<anchor_lang::error::Error as core::convert::From<anchor_lang::error::ErrorCode>>::from, stub_err_from_anchor_code)]
 #[kani::stub(<anchor_lang::error::Error as core::convert::From<::whirlpool::errors::ErrorCode>>::from, stub_err_from_code)]
 #[kani::stub(<::whirlpool::pinocchio::errors::UnifiedError as core::convert::From<::whirlpool::errors::ErrorCode>>::from, stub_unified_from_code)]
-#[kani::stub(::whirlpool::math::bit_math::checked_mul_shift_right, memo::stub_checked_mul_shift_right)]
+#[kani::stub(::whirlpool::math::bit_math::checked_mul_shift_right, uf::stub_checked_mul_shift_right)]
 fn c12_position_modify_equiv() {
     let pb = any_pos_bytes();
     let delta: i128 = kani::any();
     let fa: u128 = kani::any();
     let fb: u128 = kani::any();
     let rg: [u128; 3] = [kani::any(), kani::any(), kani::any()];
-    let pos = pos_decode(&pb);
+    let pos = pos_from_bytes(&pb);
     let a = next_position_modify_liquidity_update(&pos, delta, fa, fb, &rg);
     let p = verif_pino_next_position_modify_liquidity_update(pos_view(&pb), delta, fa, fb, &rg);
     kani::cover!(a.is_ok() && delta != 0, "ok with change");
@@ -518,7 +1511,7 @@ fn c12_whirlpool_liquidity_equiv() {
     let up: i32 = kani::any();
     let lo: i32 = kani::any();
     let delta: i128 = kani::any();
-    let w = wp_decode(&wb);
+    let w = wp_from_bytes(&wb);
     let a = next_whirlpool_liquidity(&w, up, lo, delta);
     let p = verif_pino_next_whirlpool_liquidity(wp_view(&wb), up, lo, delta);
     kani::cover!(a.is_ok() && a != Ok(w.liquidity), "in range, changed");
@@ -544,11 +1537,11 @@ fn c12_whirlpool_liquidity_equiv() {
 #[kani::stub(<anchor_lang::error::Error as core::convert::From<anchor_lang::error::ErrorCode>>::from, stub_err_from_anchor_code)]
 #[kani::stub(<anchor_lang::error::Error as core::convert::From<::whirlpool::errors::ErrorCode>>::from, stub_err_from_code)]
 #[kani::stub(<::whirlpool::pinocchio::errors::UnifiedError as core::convert::From<::whirlpool::errors::ErrorCode>>::from, stub_unified_from_code)]
-#[kani::stub(::whirlpool::math::bit_math::checked_mul_div, stub_mul_div_z)]
+#[kani::stub(::whirlpool::math::bit_math::checked_mul_div, uf::stub_checked_mul_div)]
 fn c12_reward_growth_global_equiv() {
     let wb = any_wp_bytes();
     let ts: u64 = kani::any();
-    let w = wp_decode(&wb);
+    let w = wp_from_bytes(&wb);
     let mut i = 0;
     while i < 3 {
         if !w.reward_infos[i].initialized() {
@@ -589,7 +1582,7 @@ fn c12_modify_tick_array_equiv() {
     let pu = any_position_update();
     let (au, ptu) = any_tick_updates();
     let variable: bool = kani::any();
-    let pos = pos_decode(&pb);
+    let pos = pos_from_bytes(&pb);
     let a = calculate_modify_tick_array(&pos, &pu, variable, &tick_from_bytes(&tb), &au);
     let p = verif_pino_calculate_modify_tick_array(pos_view(&pb), &pu, variable, mtick(&tb), &ptu);
     match (&a, &p) {
@@ -602,6 +1595,213 @@ fn c12_modify_tick_array_equiv() {
     }
     core::mem::forget(a);
     core::mem::forget(p);
+}
+
+/// pino_calculate_liquidity_token_deltas ≡ calculate_liquidity_token_deltas on all 216-byte positions, prices,
+/// current ticks and deltas; sqrt_price_from_tick_index and get_amount_delta_a/b are uninterpreted functions
+/// (same structure ⇒ same calls; an arbitrary one of several error codes may come back and must be propagated)
+// @verif prop=C12 tier=quick timeout=300
+#[kani::proof]
+#[kani::unwind(34)]
+#[kani::stub(alloc::fmt::format, stub_format)]
+#[kani::stub(<anchor_lang::error::Error as core::convert::From<anchor_lang::error::ErrorCode>>::from, stub_err_from_anchor_code)]
+#[kani::stub(<anchor_lang::error::Error as core::convert::From<::whirlpool::errors::ErrorCode>>::from, stub_err_from_code)]
+#[kani::stub(<::whirlpool::pinocchio::errors::UnifiedError as core::convert::From<::whirlpool::errors::ErrorCode>>::from, stub_unified_from_code)]
+#[kani::stub(<::whirlpool::pinocchio::errors::UnifiedError as core::convert::From<anchor_lang::error::ErrorCode>>::from, stub_unified_from_anchor_code)]
+#[kani::stub(::whirlpool::math::tick_math::sqrt_price_from_tick_index, uf::stub_sqrt_price_from_tick_index)]
+#[kani::stub(::whirlpool::math::token_math::get_amount_delta_a, uf::stub_get_amount_delta_a)]
+#[kani::stub(::whirlpool::math::token_math::get_amount_delta_b, uf::stub_get_amount_delta_b)]
+fn c12_liquidity_token_deltas_equiv() {
+    let pb = any_pos_bytes();
+    let cur: i32 = kani::any();
+    let price: u128 = kani::any();
+    let delta: i128 = kani::any();
+    let pos = pos_from_bytes(&pb);
+    let a = calculate_liquidity_token_deltas(cur, price, &pos, delta);
+    let p = pino_calculate_liquidity_token_deltas(cur, price, pos_view(&pb), delta);
+    match (&a, &p) {
+        (Ok(x), Ok(y)) => {
+            assert!(x.0 == y.0 && x.1 == y.1);
+            kani::cover!(x.0 != 0 && x.1 != 0, "in range: both tokens");
+            kani::cover!(x.0 != 0 && x.1 == 0 && cur < pos.tick_lower_index, "below range: token A only");
+        }
+        (Err(x), Err(y)) => assert!(acode(x) == ucode(y)),
+        _ => assert!(false, "outcome kind differs"),
+    }
+    kani::cover!(matches!(&a, Err(e) if acode(e) == ecode(ErrorCode::TokenMaxExceeded)), "amount error propagated");
+    kani::cover!(matches!(&a, Err(e) if acode(e) == ecode(ErrorCode::LiquidityZero)), "zero delta");
+    core::mem::forget(a);
+    core::mem::forget(p);
+}
+
+fn same_modify(a: &ModifyLiquidityUpdate, p: &PinoModifyLiquidityUpdate) -> bool {
+    a.whirlpool_liquidity == p.whirlpool_liquidity
+        && same_update(&a.tick_lower_update, &p.tick_lower_update)
+        && same_update(&a.tick_upper_update, &p.tick_upper_update)
+        && a.reward_infos[0].growth_global_x64 == p.next_reward_growth_global[0]
+        && a.reward_infos[1].growth_global_x64 == p.next_reward_growth_global[1]
+        && a.reward_infos[2].growth_global_x64 == p.next_reward_growth_global[2]
+        && a.position_update == p.position_update
+        && a.tick_array_lower_update.transfer_rent == p.tick_array_lower_update.transfer_rent
+        && a.tick_array_lower_update.size_update == p.tick_array_lower_update.size_update
+        && a.tick_array_upper_update.transfer_rent == p.tick_array_upper_update.transfer_rent
+        && a.tick_array_upper_update.size_update == p.tick_array_upper_update.size_update
+}
+/// documented invariant shared by the composed harnesses: uninitialised reward ⇒ zero emissions (see
+/// c12_reward_growth_global_equiv)
+fn assume_reward_invariant(w: &Whirlpool) {
+    let mut i = 0;
+    while i < 3 {
+        if !w.reward_infos[i].initialized() {
+            kani::assume(w.reward_infos[i].emissions_per_second_x64 == 0);
+        }
+        i += 1;
+    }
+}
+
+/// pino_calculate_modify_liquidity ≡ calculate_modify_liquidity (whole composition of the private
+/// `_calculate_modify_liquidity`s): every field of the update (pool liquidity, both tick updates, reward growths,
+/// position update, rent-transfer / realloc decisions) or the same error code, on all 653-byte pools, 216-byte
+/// positions (tick range symbolic), all 113-byte lower/upper ticks, found/not-found and fixed/variable-size arrays
+/// (MockArr), all i128 deltas and timestamps. checked_mul_div / checked_mul_shift_right are uninterpreted functions
+/// shared by both sides; reward invariant as in c12_reward_growth_global_equiv.
+// @verif prop=C12 tier=thorough timeout=900
+#[kani::proof]
+#[kani::unwind(34)]
+#[kani::stub(alloc::fmt::format, stub_format)]
+#[kani::stub(<anchor_lang::error::Error as core::convert::From<anchor_lang::error::ErrorCode>>::from, stub_err_from_anchor_code)]
+#[kani::stub(<anchor_lang::error::Error as core::convert::From<::whirlpool::errors::ErrorCode>>::from, stub_err_from_code)]
+#[kani::stub(<::whirlpool::pinocchio::errors::UnifiedError as core::convert::From<::whirlpool::errors::ErrorCode>>::from, stub_unified_from_code)]
+#[kani::stub(<::whirlpool::pinocchio::errors::UnifiedError as core::convert::From<anchor_lang::error::ErrorCode>>::from, stub_unified_from_anchor_code)]
+#[kani::stub(::whirlpool::manager::whirlpool_manager::next_whirlpool_reward_infos, leaf::a_next_whirlpool_reward_infos)]
+#[kani::stub(::whirlpool::pinocchio::ported::manager_liquidity_manager::pino_next_whirlpool_reward_growth_global, leaf::p_next_whirlpool_reward_growth_global)]
+#[kani::stub(::whirlpool::manager::position_manager::next_position_modify_liquidity_update, leaf::a_next_position_modify_liquidity_update)]
+#[kani::stub(::whirlpool::pinocchio::ported::manager_liquidity_manager::pino_next_position_modify_liquidity_update, leaf::p_next_position_modify_liquidity_update)]
+fn c12_calculate_modify_liquidity_equiv() {
+    let wb = any_wp_bytes();
+    let pb = any_pos_bytes();
+    let (al, pl) = MockArr::any();
+    let (au, pu) = MockArr::any();
+    let delta: i128 = kani::any();
+    let now: u64 = kani::any();
+    let w = wp_from_bytes(&wb);
+    assume_reward_invariant(&w);
+    let pos = pos_from_bytes(&pb);
+    unsafe {
+        leaf::A_WP = &w as *const Whirlpool as usize;
+        leaf::P_WP = wb.as_ptr() as usize;
+        leaf::A_POS = &pos as *const Position as usize;
+        leaf::P_POS = pb.as_ptr() as usize;
+    }
+    let a = calculate_modify_liquidity(&w, &pos, &al, &au, delta, now);
+    let p = pino_calculate_modify_liquidity(wp_view(&wb), pos_view(&pb), &pl, &pu, delta, now);
+    assert!(unsafe { !leaf::DIVERGED }, "the two summarised leaves are called with the same arguments");
+    match (&a, &p) {
+        (Ok(x), Ok(y)) => {
+            assert!(same_modify(x, y));
+            kani::cover!(delta > 0 && x.tick_lower_update.initialized
+                && x.reward_infos[0].growth_global_x64 != w.reward_infos[0].growth_global_x64
+                && x.tick_array_lower_update.size_update == TickArraySizeUpdate::Increase
+                && x.tick_array_upper_update.size_update == TickArraySizeUpdate::None,
+                "increase: reward growth accrues, realloc of the lower (dynamic) array only");
+            kani::cover!(delta < 0 && !x.tick_upper_update.initialized, "decrease de-initialising the upper tick");
+        }
+        (Err(x), Err(y)) => assert!(acode(x) == ucode(y)),
+        _ => assert!(false, "outcome kind differs"),
+    }
+    kani::cover!(matches!(&a, Err(e) if acode(e) == ecode(ErrorCode::LiquidityNetError)), "liquidity net error");
+    core::mem::forget(a);
+    core::mem::forget(p);
+}
+
+/// pino_sync_modify_liquidity_values ≡ sync_modify_liquidity_values: applying the same symbolic update through the
+/// Pinocchio views and through the Anchor types leaves the same whirlpool and position state (every field of the
+/// Anchor structs == the Pinocchio-written 653 / 216 bytes decoded) and issues the same `update_tick(index, spacing, update)` requests in the same order to
+/// the lower / upper (Some) or shared (None) array (MockArr, each request may succeed or fail), or fails with the
+/// same code
+// @verif prop=C12 tier=quick timeout=300
+#[kani::proof]
+#[kani::unwind(34)]
+#[kani::stub(alloc::fmt::format, stub_format)]
+#[kani::stub(<anchor_lang::error::Error as core::convert::From<anchor_lang::error::ErrorCode>>::from, stub_err_from_anchor_code)]
+#[kani::stub(<anchor_lang::error::Error as core::convert::From<::whirlpool::errors::ErrorCode>>::from, stub_err_from_code)]
+#[kani::stub(<::whirlpool::pinocchio::errors::UnifiedError as core::convert::From<::whirlpool::errors::ErrorCode>>::from, stub_unified_from_code)]
+#[kani::stub(<::whirlpool::pinocchio::errors::UnifiedError as core::convert::From<anchor_lang::error::ErrorCode>>::from, stub_unified_from_anchor_code)]
+fn c12_sync_modify_liquidity_equiv() {
+    let shared: bool = kani::any();
+    let wb = any_wp_bytes();
+    let pb = any_pos_bytes();
+    let (mut al, mut pl) = MockArr::any();
+    let (mut au, mut pup) = MockArr::any();
+    let (alu, plu) = any_tick_updates();
+    let (auu, puu) = any_tick_updates();
+    let pu = any_position_update();
+    let liq: u128 = kani::any();
+    let g: [u128; 3] = [kani::any(), kani::any(), kani::any()];
+    let now: u64 = kani::any();
+    // Anchor side
+    let mut w = wp_from_bytes(&wb);
+    let mut pos = pos_from_bytes(&pb);
+    let mut infos = w.reward_infos; // what calculate_modify_liquidity puts there: the pool's infos with new growths
+    infos[0].growth_global_x64 = g[0];
+    infos[1].growth_global_x64 = g[1];
+    infos[2].growth_global_x64 = g[2];
+    let aupd = ModifyLiquidityUpdate {
+        whirlpool_liquidity: liq,
+        tick_lower_update: alu,
+        tick_upper_update: auu,
+        reward_infos: infos,
+        position_update: PositionUpdate { liquidity: pu.liquidity, fee_growth_checkpoint_a: pu.fee_growth_checkpoint_a, fee_owed_a: pu.fee_owed_a,
+            fee_growth_checkpoint_b: pu.fee_growth_checkpoint_b, fee_owed_b: pu.fee_owed_b, reward_infos: pu.reward_infos },
+        tick_array_lower_update: TickArrayUpdate::default(),
+        tick_array_upper_update: TickArrayUpdate::default(),
+    };
+    let ar = if shared {
+        sync_modify_liquidity_values(&mut w, &mut pos, &mut al, None, &aupd, now)
+    } else {
+        sync_modify_liquidity_values(&mut w, &mut pos, &mut al, Some(&mut au), &aupd, now)
+    };
+    // Pinocchio side
+    let pupd = PinoModifyLiquidityUpdate {
+        whirlpool_liquidity: liq,
+        tick_lower_update: plu,
+        tick_upper_update: puu,
+        next_reward_growth_global: g,
+        position_update: pu,
+        tick_array_lower_update: TickArrayUpdate::default(),
+        tick_array_upper_update: TickArrayUpdate::default(),
+    };
+    let mut pwb = wb;
+    let mut ppb = pb;
+    let pr = if shared {
+        pino_sync_modify_liquidity_values(wp_view_mut(&mut pwb), pos_view_mut(&mut ppb), &mut pl, None, &pupd, now)
+    } else {
+        pino_sync_modify_liquidity_values(wp_view_mut(&mut pwb), pos_view_mut(&mut ppb), &mut pl, Some(&mut pup), &pupd, now)
+    };
+    // same requests to the arrays, whatever the outcome
+    assert!(al.same_log(&pl) && au.same_log(&pup));
+    match (&ar, &pr) {
+        (Ok(()), Ok(())) => {
+            // post-state: the Anchor structs equal what the Pinocchio-written bytes decode to, field by field (Borsh of
+            // these all-integer structs is injective, so the serialised images are equal; the setters themselves are
+            // compared byte-for-byte through the real AnchorSerialize in c12_view_whirlpool_write / _position_update)
+            let mw = wp_from_bytes(&pwb);
+            let mp = pos_from_bytes(&ppb);
+            assert!(same_wp_core(&w, &mw, 0));
+            assert!(same_wp_reward(&w.reward_infos[0], &mw.reward_infos[0], 0));
+            assert!(same_wp_reward(&w.reward_infos[1], &mw.reward_infos[1], 0));
+            assert!(same_wp_reward(&w.reward_infos[2], &mw.reward_infos[2], 0));
+            assert!(same_pos(&pos, &mp, 0));
+            assert!(if shared { al.n == 2 && au.n == 0 } else { al.n == 1 && au.n == 1 });
+            kani::cover!(shared && al.log_idx[1] != al.log_idx[0] && mw.liquidity != wp_view(&wb).liquidity() && mp.fee_owed_a != pos_view(&pb).fee_owed_a(), "shared array: two requests; pool and position modified");
+            kani::cover!(!shared, "separate upper array");
+        }
+        (Err(x), Err(y)) => assert!(acode(x) == ucode(y)),
+        _ => assert!(false, "outcome kind differs"),
+    }
+    kani::cover!(ar.is_err() && al.n == 2, "second request on the shared array rejected");
+    core::mem::forget(ar);
+    core::mem::forget(pr);
 }
 
 // ---------------------------------------------------------------------------------------------
@@ -625,3 +1825,4 @@ fn c12_twin_must_fail() {
     core::mem::forget(p);
     assert!(!ok, "twin: reachable Ok must be reported");
 }
+
